@@ -352,12 +352,17 @@ def normalise(tree: ast.Module, rel: str, digest: str | None = None) -> tuple[as
     if digest is not None and R.get('__digest__', {}).get(rel) == digest:
         return tree, 0  # file is byte-identical to the reference: nothing to do
     import copy
+    import os
     from . import temps
+    pre = 0
+    if os.environ.get('AEIC_VERIF_NO_PRENORM') != '1':
+        from . import prenorm
+        tree, pre = prenorm.prenormalise(tree, rel, R)
     known = set(R.get('__funcs__', {}).get(rel, []))
     sig, shp = R.get(rel) or {}, R.get('__shapes__', {}).get(rel, {})
     fsig, fshp = R.get('__flat__', {}).get(rel, {}), R.get('__flatshapes__', {}).get(rel, {})
     tmp = R.get('__temps__', {}).get(rel, {})
-    done = 0
+    done = pre
     for q, fn in list(_functions(tree)):
         if q not in known:
             continue
